@@ -696,7 +696,7 @@ fn rnd_ds(r: &mut Rng, depth: usize, max_el: usize) -> Value {
                 rep = if vr == "FL" { "f32" } else { "f64" }.into();
                 vals = fill(&mut |r| if r.below(5) == 0 { known_float(r, false) } else { rnd_short_float(r) }, r, m);
             }
-            "OB" | "UN" | "OW" | "OF" | "OD" if r.below(12) == 0 => {
+            "OB" | "UN" | "OW" | "OF" | "OD" if r.below(40) == 0 => {
                 // a long value around the block sizes of a chunked encoder
                 rep = "u8c".into();
                 let base = *r.pick(&[300usize, 1024, 3072, 4096, 8192, 12288, 16384]);
